@@ -480,7 +480,7 @@ fn part_chains(shard: &Shard, journal: &Journal, rep: &mut Report) {
 			nnames: 2,
 			dup_last: 0,
 			mask_after: None,
-			layers: (0..2).map(|li| LayerD { kinds: vec![KINDS_ALL[c[li * 2]], KINDS_ALL[c[li * 2 + 1]]], assert_kind: 0, ext: li == 1 && c[4] == 1, mask_before: None }).collect(),
+			layers: (0..2).map(|li| LayerD { kinds: vec![KINDS_ALL[c[li * 2]], KINDS_ALL[c[li * 2 + 1]]], assert_kind: 0, ext: li == 1 && c[4] == 1, mask_before: None, mask_self: None }).collect(),
 		};
 		// one program reading the composed object several ways: fields twice, whole object, field list
 		let o = || var("o");
